@@ -434,7 +434,7 @@ def fuzz_cases(seed, tier):
 
 def generate(seed, tier):
     rng = random.Random(seed)
-    n = 40000 if tier == "thorough" else 6000
+    n = 50000 if tier == "thorough" else 20000
     fams = [(g_tt, 5), (g_st, 4), (g_nst, 3), (g_kv, 3), (g_glob, 1), (g_at, 3), (g_ft, 1), (g_ic, 1), (g_dt, 2), (g_unmodelled, 3)]
     tot = sum(w for _, w in fams)
     cases = []
